@@ -620,7 +620,7 @@ fn big_check<P>(s: &i_tree::verif::VerifSnapshot<P>, key: impl Fn(&P) -> i64, wa
     if info.n != want_n {
         return Err(Fail::new("structure:count", format!("{} entries linked, {} expected", info.n, want_n)));
     }
-    let bound = 4 * (peak + 1) + hint.max(8);
+    let bound = snap::slots_bound(peak, hint);
     if s.slots.len() > bound {
         return Err(Fail::new("slots-bound", format!("arena has {} slots, peak population {} (bound {})", s.slots.len(), peak, bound)));
     }
@@ -994,7 +994,7 @@ fn big_clear_case(coll: &str, n: usize, order: &str, hint: usize, rng: &mut Rng,
                 if s.root != i_tree::EMPTY_REF || s.free.len() != s.slots.len() - 1 {
                     return Err(Fail::new("slots-clear", format!("n={} cycle {}: after clear: root {} and {} of {} slots free", n, $cycle, s.root as i32, s.free.len(), s.slots.len() - 1)));
                 }
-                let bound = 4 * (n + 1) + hint.max(8);
+                let bound = snap::slots_bound(n, hint);
                 rep.counters.max("max_buffer_len_seen", s.slots.len() as u64);
                 if s.slots.len() > bound {
                     return Err(Fail::new("slots-bound", format!("n={} cycle {}: arena has {} slots for a peak population of {} (bound {})", n, $cycle, s.slots.len(), n, bound)));
